@@ -105,7 +105,7 @@ def run(res, tier, broken):
                 sizes={"quick": (20, 3), "thorough": (200, 8), "search": (150, 6)})
     tr1 = _campaign_cov(res, "campaign_cond")
     vs.campaign(res, broken, tier, "C19pw", "sc_popwait", ["sc_popwait.c"], popwait_params, validate_popwait,
-                sizes={"quick": (14, 3), "thorough": (160, 8), "search": (140, 6)})
+                sizes={"quick": (14, 3), "thorough": (120, 8), "search": (100, 5)})
     tr2 = _campaign_cov(res, "campaign_popwait")
     res.cov["model_transitions"] = sorted(tr1 | tr2)
     res.cov["model_transitions_exercised"] = len(tr1 | tr2)
